@@ -10,7 +10,9 @@ mod cli;
 mod corpus;
 mod eterm;
 mod fw;
+mod gen_syn;
 mod hast;
+mod printer;
 mod props;
 mod rgram;
 mod rtok;
